@@ -233,3 +233,10 @@ def s_stack_reversed(a, b, v):
     m = np.stack([a[:3], b[:3], a[1:4]])
     t = np.stack([a[:3], b[:3]], axis=1)
     return np.hstack([m.reshape(-1), t.reshape(-1), np.array(list(reversed([a[0], a[1], v])))])
+
+
+def s_clip_allclose(a, b, v):
+    c = np.clip(a * 3 - 4, -2, 5)
+    d = np.clip(b, 1, None)
+    flags = [np.allclose(a, a + 1e-9), np.allclose(a, a + 1e-3), np.allclose(b, b * (1 + 1e-6)), bool(np.allclose(v, v))]
+    return np.hstack([c, d, np.array([1 if f else 0 for f in flags]), np.array([np.clip(7, -1, 3), np.clip(-7, -1, 3)])])
